@@ -1,0 +1,41 @@
+//go:build verif
+
+/*
+Copyright (c) Meta Platforms, Inc. and affiliates.
+Licensed under the Apache License, Version 2.0 (the "License");
+you may not use this file except in compliance with the License.
+You may obtain a copy of the License at
+    http://www.apache.org/licenses/LICENSE-2.0
+Unless required by applicable law or agreed to in writing, software
+distributed under the License is distributed on an "AS IS" BASIS,
+WITHOUT WARRANTIES OR CONDITIONS OF ANY KIND, either express or implied.
+See the License for the specific language governing permissions and
+limitations under the License.
+*/
+
+package dnsserver
+
+import (
+	"time"
+
+	"github.com/facebookincubator/dns/dnsrocks/db"
+)
+
+// VerifYield, when set, is called at the instrumented points of ServeDNSWithRCODE and Reload so
+// that a test scheduler can park a query or a reload between its steps.
+var VerifYield func(point string)
+
+func verifYield(point string) {
+	if f := VerifYield; f != nil {
+		f(point)
+	}
+}
+
+// SetDBForVerif installs an already opened DB as the served one.
+func (h *FBDNSDB) SetDBForVerif(d *db.DB) { h.dnsdb = d }
+
+// SetReloadTimeoutForVerif changes the reload timeout.
+func (h *FBDNSDB) SetReloadTimeoutForVerif(d time.Duration) { h.dbConfig.ReloadTimeout = d }
+
+// DBPathForVerif reports the path a partial reload would use.
+func (h *FBDNSDB) DBPathForVerif() string { return h.dbConfig.Path }
